@@ -38,6 +38,8 @@ type Req struct {
 	ZeroPad int `json:"zero_pad,omitempty"`
 	// Accept: the Accept header, "" for none. The operations produce application/json only.
 	Accept string `json:"accept,omitempty"`
+	// ViaSibling: see Case.Sibling
+	ViaSibling bool `json:"via_sibling,omitempty"`
 }
 
 // unsatisfiableAccept: the Accept header admits nothing the operation produces (a second, independent defect).
@@ -57,6 +59,17 @@ type Case struct {
 	Regs     []string `json:"regs"`              // media types that have a registered consumer
 	Method   string   `json:"method"`
 	Reqs     []Req    `json:"reqs"`
+	// Sibling: the path has a second operation under another method with a consumes list of its own (nil: none). A
+	// request marked ViaSibling is first sent to that operation, unjudged: what one operation of a path admits says
+	// nothing about the other. (r6)
+	Sibling []string `json:"sibling,omitempty"`
+}
+
+func (c Case) siblingMethod() string {
+	if strings.EqualFold(c.Method, "put") {
+		return "post"
+	}
+	return "put"
 }
 
 func (q Req) carriesBody() bool {
@@ -142,7 +155,16 @@ func buildSpec(c Case) json.RawMessage {
 		"parameters":  []M{{"name": "b", "in": "body", "schema": M{}}},
 		"responses":   M{"200": M{"description": "ok"}},
 	}
-	doc := M{"swagger": "2.0", "info": M{"title": "t", "version": "1"}, "basePath": "/", "paths": M{"/p": M{c.Method: op}}}
+	item := M{c.Method: op}
+	if c.Sibling != nil {
+		item[c.siblingMethod()] = M{
+			"operationId": "sibling",
+			"consumes":    c.Sibling,
+			"parameters":  []M{{"name": "b", "in": "body", "schema": M{}}},
+			"responses":   M{"200": M{"description": "ok"}},
+		}
+	}
+	doc := M{"swagger": "2.0", "info": M{"title": "t", "version": "1"}, "basePath": "/", "paths": M{"/p": item}}
 	if c.Consumes != nil {
 		if c.Global {
 			doc["consumes"] = c.Consumes
@@ -213,6 +235,9 @@ func newUntypedRig(c Case) *rig {
 		r.obs.ran++
 		return M{"ok": true}, nil
 	}))
+	if c.Sibling != nil {
+		api.RegisterOperation(c.siblingMethod(), "/p", runtime.OperationHandlerFunc(func(interface{}) (interface{}, error) { return M{"sibling": true}, nil }))
+	}
 	r.ctx = middleware.NewContext(doc, api, nil)
 	r.serve = r.ctx.APIHandler(nil)
 	return r
@@ -227,7 +252,7 @@ type wildAPI struct {
 }
 
 func (w *wildAPI) HandlerFor(method, path string) (http.Handler, bool) {
-	if !strings.EqualFold(method, w.rig.c.Method) || path != "/p" {
+	if path != "/p" || !(strings.EqualFold(method, w.rig.c.Method) || w.rig.c.Sibling != nil && strings.EqualFold(method, w.rig.c.siblingMethod())) {
 		return nil, false
 	}
 	return http.HandlerFunc(func(rw http.ResponseWriter, r *http.Request) {
@@ -480,6 +505,24 @@ func check(c Case, r *rig, wild bool) *kit.Violation {
 	for i, q := range c.Reqs {
 		probe := q.build(c.Method)
 		v := Judge(c.Consumes, c.Default, q.carriesBody(), probe.Header.Get("Content-Type"))
+		if q.ViaSibling && c.Sibling != nil {
+			for pass := 0; pass < 2; pass++ { // once through either entry point
+				sreq := q.build(c.siblingMethod())
+				if pass == 0 {
+					if viol := kit.Guard("APIHandler.ServeHTTP (sibling operation)", func() { r.serve.ServeHTTP(httptest.NewRecorder(), sreq) }); viol != nil {
+						return viol
+					}
+					continue
+				}
+				if viol := kit.Guard("BindValidRequest (sibling operation)", func() {
+					if route, rq, ok := r.ctx.RouteInfo(sreq); ok {
+						_ = r.ctx.BindValidRequest(rq, route, binderFunc(func(*http.Request, *middleware.MatchedRoute) error { return nil }))
+					}
+				}); viol != nil {
+					return viol
+				}
+			}
+		}
 		ro, viol := r.reflective(q)
 		if viol != nil {
 			viol.Msg = fmt.Sprintf("%s: request %d (%s): %s", c.describe(), i, q.describe(), viol.Msg)
